@@ -10,6 +10,7 @@ import random
 
 from . import core
 from . import drivers
+from . import asynctrace
 from .c15 import MENU
 
 
@@ -129,6 +130,8 @@ def run(tier, seed, replay=None):
             scs = [replay["case"]["scenario"]]
         else:
             scs = hid_scenarios(tier, seed) + serial_scenarios(tier, seed)
+            asynctrace.model_runs(out, scx, "c17", tier)
+            scs = scs + asynctrace.scenarios(seed, 32 if tier == "quick" else 400, "c17")
         recs = core.pmap(run_one, scs, chunksize=4)
         slim = []
         for ix, (sc, r) in enumerate(zip(scs, recs), 1):
@@ -138,7 +141,7 @@ def run(tier, seed, replay=None):
             lost = r.get("lost_at", -1)
             expect_failed = 1 if (sc["driver"] in ("tridonic", "hasseb") and limit is not None and r.get("lost_at", -1) >= 0
                                   and not r.get("returned_in_time", True)) else 0
-            s = {k: v for k, v in r.items() if k not in ("scenario", "writes", "traffic")}
+            s = {k: v for k, v in r.items() if k not in ("scenario", "writes", "traffic", "events")}
             tl = r["out"].get("tail", {})
             s["status"] = [[us(t), st] for t, st in r["status"][:tl.get("status_len", len(r["status"]))]]
             s["opens"] = [[us(t), ok] for t, ok in r["opens"][:tl.get("opens_len", len(r["opens"]))]]
@@ -152,6 +155,8 @@ def run(tier, seed, replay=None):
                            "timeout_answer": us(0.025 if sc["driver"] == "luba" else 0.03)}
             s["now"] = us(r["now"])
             slim.append(s)
+        if replay is None:
+            asynctrace.conformance(out, recs, scx)
         paths, counts = core.shard_records(slim, scx, "c17", nshards=core.NCPU if len(slim) > 32 else 1)
         rejects, notes, states, trans, wall = core.judge_shards("AsyncJudge", "AsyncJudge.cfg", paths, scx,
                                                                 expect_counts=counts, extra_env={"MODE": "c17"})
